@@ -340,6 +340,14 @@ def run(tier):
             V.log(out[-2000:])
             raise V.ToolError("c08 build failed: %s" % (s[0]["error"] if s else rc))
         scens.append((sp, ["after"] if tier == "quick" else ["before", "after"], 3 if tier == "quick" else 8))
+    # directed: reorganisations between branches that split before an epoch boundary, tips inside one epoch number
+    sp = os.path.join(wd, "scen_epochfork.json")
+    rc, out = V.ckbv("c08", ["build", "--directed", "epochfork", "--seed", V.seed(), "--epoch-len", 3 if tier == "quick" else 4, "--out", sp], timeout=600)
+    s = [x["summary"] for x in lines_of(out) if "summary" in x]
+    if rc != 0 or not s or s[0]["error"]:
+        V.log(out[-2000:])
+        raise V.ToolError("c08 build (epochfork) failed: %s" % (s[0]["error"] if s else rc))
+    scens.append((sp, ["after"], 1))
     # ---------------------------------------------------------------- 3. fault enumeration
     tot = {}
     sample_done = False
